@@ -252,3 +252,109 @@ CHECKS.append(Check("overflow", lambda tier: [dict(src="int32"), dict(src="int32
                     doc="two source pixels of one coarse block with arbitrary values of the source type: stored block sum == exact sum or the operation is refused; "
                         "with a wider requested dtype the sum is exact",
                     bounds=dict(values="full positive range of int32 / int16 / uint8 sources")))
+
+
+# ---------------------------------------------------------------------------
+# the clauses "composes (k1 then k2 == k1*k2 on fixed-width bins)" and "commutes with merging", executed end to end
+# ---------------------------------------------------------------------------
+def _chain_body(env, p):
+    """compose: coarsen(coarsen(S, k1), k2) == coarsen(S, k1*k2); commute: coarsen(merge(S1, S2), k) == merge(coarsen(S1, k), coarsen(S2, k)).
+    Both sides run through the real source; the two results must be the same collection (bin table, pixel table, total)."""
+    env.reset()
+    layout, K, upper = p["layout"], p["K"], p["upper"]
+    n = sum(layout)
+    bins = concrete_bins(layout, "even")
+    read = read_pixels_sym if env.symbolic else read_pixels_real
+    cool = env.cooler
+    cs = env.choice("chunksize", K + 1) + 1
+
+    def tables(path):
+        f = env.h5.File(path, "r")
+        t = [[int(x) for x in f["bins/chrom"][:]], [int(x) for x in f["bins/start"][:]], [int(x) for x in f["bins/end"][:]]]
+        f.close()
+        return t
+
+    def same(a, b, what):
+        ta, tb = tables(a), tables(b)
+        env.check(ta == tb, f"{what}: the two results have different bin tables {ta} vs {tb}")
+        (pa, aa), (pb, ab) = read(a), read(b)
+        if len(pa["bin1_id"]) != len(pb["bin1_id"]):
+            env.fail(f"{what}: the two results have {len(pa['bin1_id'])} and {len(pb['bin1_id'])} pixels")
+        env.check(and_(*[x == y for col in ("bin1_id", "bin2_id", "count") for x, y in zip(pa[col], pb[col])]),
+                  f"{what}: the two results differ in a pixel")
+        env.check(aa["sum"] == ab["sum"], f"{what}: totals differ")
+        return pa, aa
+
+    if p["mode"] == "compose":
+        b1, b2, v = env_pixels(env, n, K, upper)
+        src = env.build_cooler(scratch_file("c08c_in.cool"), bins, b1, b2, {"count": v}, upper)
+        k1, k2 = p["k1"], p["k2"]
+        mid, two, one = scratch_file("c08c_mid.cool"), scratch_file("c08c_two.cool"), scratch_file("c08c_one.cool")
+        cool.coarsen_cooler(src, mid, k1, cs)
+        cool.coarsen_cooler(mid, two, k2, cs)
+        cool.coarsen_cooler(src, one, k1 * k2, cs)
+        if env.symbolic:
+            for cond, msg in validity_sym(two):
+                prove(cond, "second-level coarsening: " + msg)
+        else:
+            validity_real(two)
+        pa, aa = same(two, one, f"coarsening by {k1} then {k2} vs by {k1 * k2}")
+        env.check(aa["sum"] == ssum(list(v)) if env.symbolic else aa["sum"] == sum(v), "total not preserved through the chain")
+        return dict(pix=dict(pa), sum=aa["sum"])
+    # commute with merging
+    k = p["k1"]
+    b1, b2, v = env_pixels(env, n, K, upper, prefix="a")
+    c1, c2, u = env_pixels(env, n, K, upper, prefix="b")
+    if env.symbolic:
+        cover("shared_pixel", or_(*[and_(x == y, s == t) for x, s in zip(b1, b2) for y, t in zip(c1, c2)]))
+        cover("shared_block_only", True)
+    sa = env.build_cooler(scratch_file("c08m_a.cool"), bins, b1, b2, {"count": v}, upper)
+    sb = env.build_cooler(scratch_file("c08m_b.cool"), bins, c1, c2, {"count": u}, upper)
+    mg, x = scratch_file("c08m_m.cool"), scratch_file("c08m_x.cool")
+    ca, cb, y = scratch_file("c08m_ca.cool"), scratch_file("c08m_cb.cool"), scratch_file("c08m_y.cool")
+    mb = env.choice("mergebuf", 2 * K + 1) + 1
+    cool.merge_coolers(mg, [sa, sb], mergebuf=mb)
+    cool.coarsen_cooler(mg, x, k, cs)
+    cool.coarsen_cooler(sa, ca, k, cs)
+    cool.coarsen_cooler(sb, cb, k, cs)
+    cool.merge_coolers(y, [ca, cb], mergebuf=mb)
+    if env.symbolic:
+        for cond, msg in validity_sym(y):
+            prove(cond, "merge of coarsened inputs: " + msg)
+    else:
+        validity_real(y)
+    pa, aa = same(x, y, f"coarsen(merge) vs merge(coarsen), factor {k}")
+    env.check(aa["sum"] == (ssum(list(v)) + ssum(list(u)) if env.symbolic else sum(v) + sum(u)), "total not preserved through merge and coarsening")
+    return dict(pix=dict(pa), sum=aa["sum"])
+
+
+chain_sym, chain_real = both(_chain_body)
+
+
+def _chain_cases(tier):
+    out = []
+    if tier == "quick":
+        out += [dict(mode="compose", layout=[4], K=2, upper=True, k1=2, k2=2), dict(mode="compose", layout=[5, 2], K=2, upper=False, k1=2, k2=2),
+                dict(mode="compose", layout=[6], K=2, upper=True, k1=2, k2=3), dict(mode="compose", layout=[6], K=2, upper=True, k1=3, k2=2)]
+        out += [dict(mode="commute", layout=[3], K=1, upper=True, k1=2), dict(mode="commute", layout=[2, 2], K=1, upper=True, k1=2),
+                dict(mode="commute", layout=[4], K=1, upper=False, k1=3)]
+    else:
+        for lay in ([4], [5, 2], [6], [7, 1], [3, 3, 2]):
+            for k1, k2 in ((2, 2), (2, 3), (3, 2)):
+                for upper in (True, False):
+                    out.append(dict(mode="compose", layout=lay, K=3, upper=upper, k1=k1, k2=k2))
+        for lay in ([3], [2, 2], [4], [5], [3, 2]):
+            for k in (2, 3):
+                for upper in (True, False):
+                    out.append(dict(mode="commute", layout=lay, K=2, upper=upper, k1=k))
+    return out
+
+
+CHECKS.append(Check("chain", _chain_cases, chain_sym, chain_real,
+                    doc="the composition and merge-commutation clauses executed end to end on symbolic collections: coarsen(k1) then coarsen(k2) "
+                        "is the same collection as coarsen(k1*k2) on fixed-width bins; coarsen(merge(A,B)) is the same collection as "
+                        "merge(coarsen(A), coarsen(B)); chunk size and merge buffer solver-chosen",
+                    bounds=dict(quick="n<=7 bins, <=2 chromosomes, K<=2 pixels per input, (k1,k2) in {(2,2),(2,3),(3,2)}, merge of 2 inputs",
+                                thorough="n<=8 bins, <=3 chromosomes, K<=3 (compose) / 2 per input (commute)"),
+                    stubs=("E3 in-memory h5py model", "E4 pandas models", "E7 ordered map"),
+                    outside=("variable-width bins for composition (the property states it for fixed-width bins)",), timeout=3000, split_depth=8))
